@@ -122,8 +122,14 @@ def run(chk):
     k3 = Knobs(envelope="asap", sub_slot=0.3, p_alt=0.6, p_tz=0.0, p_team=0.0, p_limits=0.2, p_tasklimits=0.1, p_leave=0.4,
                max_res=3, max_tasks=6, big_effort=0.3, aligned_only=True, dur_weeks=[3, 4])
     n3 = 60 if tier == "quick" else 1000
+    # long tasks under task / container limits that run out in the middle of a day or week: where the walk resumes is part of
+    # "earliest fit"
+    k4 = Knobs(envelope="asap", sub_slot=0.0, p_alt=0.0, p_tz=0.0, p_team=0.0, p_eff=0.0, p_limits=0.2, p_tasklimits=0.7,
+               p_container=0.4, big_effort=0.7, max_res=2, max_tasks=5, p_leave=0.2, aligned_only=True, dur_weeks=[5, 6])
+    n4 = 60 if tier == "quick" else 1000
     asts = ([gen.gen_project(chk.rng, k) for _ in range(n // 2)] + [gen.gen_project(chk.rng, k2) for _ in range(n - n // 2)]
-            + [universe_member(chk.rng) for _ in range(nu)] + [gen.gen_project(chk.rng, k3) for _ in range(n3)])
+            + [universe_member(chk.rng) for _ in range(nu)] + [gen.gen_project(chk.rng, k3) for _ in range(n3)]
+            + [gen.gen_project(chk.rng, k4) for _ in range(n4)])
     universe = enumerate_universe()
     # quick: a sample of the enumerated universe; thorough: all of it
     asts += universe if tier != "quick" else chk.rng.sample(universe, 150)
